@@ -1,11 +1,11 @@
 """C13 — fallback cycles return the fallback for exactly the cycle participants."""
 from checks_path import *  # noqa
-from cycle_common import run_cycle
+from cycle_common import run_cycle, compare_cycle_rev
 from seq_common import replay_seq
 
 PROPERTY = 'C13'
-GEN = ['LogicCycle']
-PROPS = ['SalsaVerif.Props.C13', 'SalsaVerif.Props.GenLogicCycle']
+GEN = ['Stamp', 'LogicCycle']
+PROPS = ['SalsaVerif.Props.C13', 'SalsaVerif.Props.GenLogicCycle', 'SalsaVerif.Props.C13Rev']
 KNOWN = ('fb-participant-after-revalidated-head', 'fix-participant-stale-after-revalidation')
 EXPLANATION = ('Theorems about the Lean cycle model for programs whose cycle members use cycle_result, for ANY entry node and ANY history of requests '
                'in a revision: a memoised fallback node holds its fallback value IFF it lies on a cycle of the input-determined call graph, '
@@ -22,7 +22,7 @@ ASSUMPTIONS = ['`c13_entry_independent` / `c13_reference` assume every node on a
 
 def ties(ctx):
     n = 8000 if ctx.tier == "quick" else 150000
-    return [run_cycle(ctx, n, known_keys=KNOWN, flavours='1', corpus='C13')]
+    return [compare_cycle_rev(ctx, run_cycle(ctx, n, known_keys=KNOWN, flavours='1', corpus='C13'), 'cycle')]
 
 def search(ctx, reason):
     t = run_cycle(ctx, 200000, known_keys=KNOWN, flavours='1', seed_offset=97, tag='search-cycle')
